@@ -55,6 +55,12 @@ def to_expr(e, env, arrays=None):
             b = strip(e["inner"][0])
             if b.get("kind") == "DeclRefExpr":
                 return _aread(b["referencedDecl"]["name"], num(0), env, arrays)
+        if op == "&":
+            b = strip(e["inner"][0])
+            if b.get("kind") == "DeclRefExpr":
+                return ('call', 'addr', (('sym', b["referencedDecl"]["name"]),))
+            if b.get("kind") == "ArraySubscriptExpr":
+                return ('call', 'addr', (to_expr(b, env, arrays),))
         raise Undecided(f"unary {op}")
     if k == "ArraySubscriptExpr":
         b = strip(e["inner"][0])
